@@ -408,7 +408,7 @@ class ttensor:
         if (
             len(vector) > 0
             and isinstance(vector, np.ndarray)
-            and isinstance(vector[0], (int, float, np.int_, np.float64))
+            and isinstance(vector[0], (int, float, np.number, np.bool_))
         ):
             return self.ttv([vector], dims, exclude_dims)
 
